@@ -39,6 +39,7 @@ structure MolQ where
   name : List Char
   labels : List (List Char)
   bonds : List (Nat × Nat × BT)
+  oid : Nat := 0          -- Python object identity (two dictionary entries may hold the same MolQuery)
   deriving Repr, Inhabited
 
 def kw (s : String) : List Char := s.toList
@@ -119,32 +120,44 @@ def cnOK (k : List Ast) : Bool := k.length = 1 ∨ k.length = 2
 def bondKeywords : List (List Char) :=
   [kw "single", kw "double", kw "triple", kw "quadruple", kw "ring", kw "nonring", kw "aromatic", kw "any", kw "strong", kw "partial"]
 
-/-- `ReadAtomConstraintConnectivity(tree)` (after the F19 repair; `RINGgroups is None`) -/
-def readConn (kids : List Ast) : RM Unit := do
-  let kids ← readBoolean kids
-  let kids ← (match kids with
-    | .node n ck :: r => if n = rConstraintNumber then (if cnOK ck then pure r else throw .shape) else pure kids
-    | _ => throw .shape)
+/-- the optional bond clause: `if len(tree) == i+1: assert BondType; BondQuery(...)`, else the default -/
+def connTail (rest : List Ast) : RM Unit :=
+  match rest with
+  | [.node b bk] =>
+    if b = rBondType then
+      match bk with
+      | .str s :: _ => if s ∈ bondKeywords then pure () else throw .notImpl
+      | _ :: _ => throw .shape
+      | [] => throw .shape
+    else throw .shape
+  | [_] => throw .shape
+  | _ => pure ()
+
+/-- the connected atom type or group (`RINGgroups is None`: a group is never found, F19) -/
+def connCore (kids : List Ast) : RM Unit :=
   match kids with
   | .node n k :: rest =>
     if n = rAtomType then do
       readAtomType k
-      match rest with
-      | [.node b bk] =>
-        if b = rBondType then
-          match bk with
-          | .str s :: _ => if s ∈ bondKeywords then pure () else throw .notImpl
-          | _ :: _ => throw .shape
-          | [] => throw .shape
-        else throw .shape
-      | [_] => throw .shape
-      | _ => pure ()
+      connTail rest
     else if n = rGroupName then
       match k with
       | [] => throw .shape
       | _ :: _ => throw .reader
     else throw .shape
   | _ => throw .shape
+
+/-- the optional `ConstraintNumber` -/
+def connCN (kids : List Ast) : RM (List Ast) :=
+  match kids with
+  | .node n ck :: r => if n = rConstraintNumber then (if cnOK ck then pure r else throw .shape) else pure kids
+  | _ => throw .shape
+
+/-- `ReadAtomConstraintConnectivity(tree)` (after the F19 repair) -/
+def readConn (kids : List Ast) : RM Unit := do
+  let k1 ← readBoolean kids
+  let k2 ← connCN k1
+  connCore k2
 
 /-- `ReadAtomConstraintRing` / `Radical` / `NRing` -/
 def readCountConstraint (kids : List Ast) : RM Unit := do
@@ -348,21 +361,22 @@ def readMol (kids : List Ast) : RM MolQ :=
 
 /-! ## ReactionQueryRead.py -/
 
-/-- reader state: `reactionquery.reactantquery` (a dict of *shared* MolQuery objects: `heap` + name ↦ index),
-`self.atom_names`, `self.atom_belonging_mol`, `self.electronbalance` (in half electrons), number of transformations -/
+/-- reader state: `reactionquery.reactantquery` (a dict name ↦ MolQuery *object*: entries with the same `oid` are
+the same Python object, and are updated together), `self.atom_names`, `self.atom_belonging_mol`,
+`self.electronbalance` (in half electrons), number of transformations -/
 structure Rxn where
-  heap : List MolQ
-  rq : List (List Char × Nat)
+  rq : List (List Char × MolQ)
+  nobj : Nat
   atomNames : List (List Char)
   belong : List (List Char)
   balance : List Int
   ntrans : Nat
   deriving Repr, Inhabited
 
-def dictSet (d : List (List Char × Nat)) (k : List Char) (v : Nat) : List (List Char × Nat) :=
+def dictSet (d : List (List Char × MolQ)) (k : List Char) (v : MolQ) : List (List Char × MolQ) :=
   if d.any (fun e => e.1 == k) then d.map (fun e => if e.1 == k then (k, v) else e) else d ++ [(k, v)]
 
-def dictGet (d : List (List Char × Nat)) (k : List Char) : Option Nat :=
+def dictGet (d : List (List Char × MolQ)) (k : List Char) : Option MolQ :=
   match d.find? (fun e => e.1 == k) with | some e => some e.2 | none => none
 
 /-- `labelmapping[k] = v` -/
@@ -419,13 +433,10 @@ def locate (s : Rxn) (l : List Char) : RM (Nat × List Char × MolQ × Nat) :=
     | some rn =>
       match dictGet s.rq rn with
       | none => throw .reader
-      | some h =>
-        match s.heap[h]? with
-        | none => throw .shape
-        | some q =>
-          match indexOf q.labels l with
-          | none => throw .reader
-          | some iq => pure (idx, rn, q, iq)
+      | some q =>
+        match indexOf q.labels l with
+        | none => throw .reader
+        | some iq => pure (idx, rn, q, iq)
 
 def globalIdx (s : Rxn) (l : List Char) : RM Nat :=
   match indexOf s.atomNames l with | some i => pure i | none => throw .reader
@@ -579,19 +590,18 @@ def readDuplicates (kids : List Ast) (s : Rxn) : RM Rxn :=
         let src := match y with | .str t => t | _ => []
         match dictGet s.rq src with
         | none => throw .reader
-        | some h =>
-          match s.heap[h]? with
-          | none => throw .shape
-          | some q =>
-            if m.length ≠ q.labels.length then throw .reader
-            match q.labels.mapM (mapGet m) with
-            | none => throw .reader
-            | some ls =>
-              let q' : MolQ := { q with name := newName, labels := ls }
-              pure { s with heap := s.heap.set h q', rq := dictSet s.rq newName h,
-                            atomNames := s.atomNames ++ ls,
-                            balance := s.balance ++ List.replicate ls.length 0,
-                            belong := s.belong ++ charsTimes newName ls.length }
+        | some q =>
+          if m.length ≠ q.labels.length then throw .reader
+          match q.labels.mapM (mapGet m) with
+          | none => throw .reader
+          | some ls =>
+            -- `rq[new] = rq[src]`, then the (shared) object is renamed and relabelled in place
+            let q' : MolQ := { q with name := newName, labels := ls }
+            let rq := (dictSet s.rq newName q').map fun e => if e.2.oid = q.oid then (e.1, q') else e
+            pure { s with rq := rq,
+                          atomNames := s.atomNames ++ ls,
+                          balance := s.balance ++ List.replicate ls.length 0,
+                          belong := s.belong ++ charsTimes newName ls.length }
       | _, _ => throw .shape
     else throw .shape
   | _ => throw .shape
@@ -613,8 +623,9 @@ def readReactants (kids : List Ast) (s : Rxn) : RM Rxn :=
   match kids with
   | .node n k :: more => do
     let s ← (if n = rReactantQuery then do
-               let q ← readMol k
-               pure { s with heap := s.heap ++ [q], rq := dictSet s.rq q.name s.heap.length,
+               let q0 ← readMol k
+               let q : MolQ := { q0 with oid := s.nobj }
+               pure { s with rq := dictSet s.rq q.name q, nobj := s.nobj + 1,
                              atomNames := s.atomNames ++ q.labels,
                              balance := s.balance ++ List.replicate q.labels.length 0,
                              belong := s.belong ++ List.replicate q.labels.length q.name }
@@ -643,7 +654,7 @@ def readRule (kids : List Ast) : RM Rxn :=
       match ak with
       | [] => throw .shape
       | _ :: _ => do
-        let s ← readReactants rk ⟨[], [], [], [], [], 0⟩
+        let s ← readReactants rk ⟨[], 0, [], [], [], 0⟩
         match rest with
         | .node c ck :: _ =>
           if c = rConstraints then throw .notImpl
